@@ -238,6 +238,8 @@ def consumer_functions(name):
         obj = ns.get(o)
         if obj is not None and hasattr(type(obj), meth):
             out.append(getattr(type(obj), meth))
+        if meth == "calculate_N":
+            out.append(type(obj).exp_mixed)
         if len(parts) > 1 and parts[1] == "exp" and obj is not None:
             for cand in (obj, ns.get("SO3" + o[-4:] if o.startswith("SE") and o[-4:] == "Quat" else ""), ns.get("SO3Mrp") if o.endswith("Mrp") else None):
                 if cand is not None and hasattr(type(cand), "exp") and getattr(type(cand), "exp") not in out:
@@ -508,6 +510,8 @@ def extra_consumers():
         "SE23Quat.exp": (9, (6, 9), lambda w: se23.elem(w).exp(SE23Quat).to_Matrix(), 1.0),
         "SE23Mrp.exp": (9, (6, 9), lambda w: se23.elem(w).exp(SE23Mrp).to_Matrix(), 1.0),
         "SE2.log(exp)": (3, (2, 3), lambda w: se2.elem(w).exp(SE2).log().param, 1.0),
+        # the N block of the mixed-invariant exponential (strapdown INS), with the coupling B of rdd2's propagation
+        "SE23Quat.calculate_N": (9, (6, 9), lambda w: SE23Quat.calculate_N(se23.elem(w), ca.SX([[0, 1], [0, 0]])), 1.0),
         "conv Quat.from_Mrp": (3, (0, 3), lambda r: SO3Quat.from_Mrp(SO3Mrp.elem(r)).param, 0.26),
         "conv Dcm.from_Mrp": (3, (0, 3), lambda r: SO3Dcm.from_Mrp(SO3Mrp.elem(r)).param, 0.26),
         "conv Mrp.from_Quat(exp)": (3, (0, 3), lambda w: SO3Mrp.from_Quat(so3.elem(w).exp(SO3Quat)).param, 1.0),
